@@ -14,9 +14,12 @@ value, whatever it is (the harness runs `int` and a 64-byte POD).
 
 The statement as written ("the only allocations are the coroutine frames") is false for one allocation source that
 is not one of the listed primitives but is used by them: the thread-local `std::deque` ready queue of `coro_queue`
-(category `rq`; listed finding, see `c20_ready_queue_witness*`).  `c20_core_no_alloc_partial` is the statement modulo that
-category; `c20_core_no_alloc` is the full statement inside the scope where the queue provably does not allocate
-(`c20_ready_queue_scope`: thread's queue already constructed and fewer than 64 enqueues).
+(category `rq`; listed finding, see `c20_ready_queue_witness*`), and for one case the statement names explicitly: "resolving a
+future with any number of waiters" — the resolver collects the released *coroutines* in one suspend point, which grows on the heap
+when a single resolution releases more than `inline_count` of them (category `rgrowth`; second listed finding, see
+`c20_resolve_growth_witness`).  `c20_core_no_alloc_partial` is the statement modulo those two categories; `c20_core_no_alloc` is the
+full statement inside the scope where provably neither happens (`c20_ready_queue_scope`: thread's queue already constructed and
+fewer than 64 enqueues; `c20_resolve_growth_scope`: no single resolution releases more than `inline_count` coroutine waiters).
 -/
 namespace Cocls.C20
 open Cocls Cocls.Alloc
@@ -60,11 +63,13 @@ def Permitted : Tok → Prop
 
 /-- **C20 modulo the listed finding.**  For every core program, on either kind of thread: every allocation or release
 in the log is the frame of a coroutine / generator (exactly one block), or the handle array of a suspend point that
-held at least three handles when it grew (size `held * growthFactor`), or belongs to the thread-local ready queue.
-Nothing of category `other` ever appears.  `_partial`: the last category is not allowed by the statement; it is the
-listed finding (DESIGN §6 row 12), characterised exactly by `c20_ready_queue_scope` / `c20_ready_queue_witness*`. -/
+held at least three handles when it grew (size `held * growthFactor`) *because user code put them there*, or belongs to the
+thread-local ready queue, or is the handle array of the suspend point a resolution fills with the coroutines it released.
+Nothing of category `other` ever appears.  `_partial`: the last two categories are not allowed by the statement; they are the
+listed findings, characterised exactly by `c20_ready_queue_scope` / `c20_ready_queue_witness*` and
+`c20_resolve_growth_scope` / `c20_resolve_growth_witness`. -/
 theorem c20_core_no_alloc_partial (fuel : Nat) (fresh : Bool) (prog : List Op) :
-    ∀ t ∈ allocLog (run fuel fresh prog), Permitted t ∨ t.isRq := by
+    ∀ t ∈ allocLog (run fuel fresh prog), Permitted t ∨ t.isRq ∨ t.isRGrowth := by
   intro t ht
   have h := inv_run fuel fresh prog
   rw [mem_allocLog] at ht
@@ -78,14 +83,34 @@ theorem c20_core_no_alloc_partial (fuel : Nat) (fresh : Bool) (prog : List Op) :
     cases c with
     | frame => left; exact hs
     | growth => left; exact ⟨Nat.le_trans h3 hs.1, hs.2⟩
-    | rq => right; trivial
+    | rgrowth => right; right; trivial
+    | rq => right; left; trivial
     | other => exact absurd hs (by simp [Tok.shapeOk])
   | free c n =>
     cases c with
     | frame => left; exact hs
     | growth => left; trivial
-    | rq => right; trivial
+    | rgrowth => right; right; trivial
+    | rq => right; left; trivial
     | other => exact absurd hs (by simp [Tok.shapeOk])
+
+/-- **Scope of the second finding.**  `rpeak` is the largest number of coroutines a single resolution of the run has released
+(ghost, updated by every `ret << resume()` of `resume_chain_lk`; the collecting suspend point starts empty): a program in which
+no resolution releases more than `inline_count` coroutine waiters has no event of category `rgrowth` — callbacks and blocking
+threads never count, they are not collected. -/
+theorem c20_resolve_growth_scope (fuel : Nat) (fresh : Bool) (prog : List Op)
+    (hr : (run fuel fresh prog).rpeak ≤ inlineCount) :
+    ∀ t ∈ allocLog (run fuel fresh prog), ¬ t.isRGrowth := by
+  intro t ht hg
+  have h := inv_run fuel fresh prog
+  rw [mem_allocLog] at ht
+  have hgg : t.isGrowth := by
+    cases t with
+    | alloc c n held => cases c <;> simp_all [Tok.isGrowth, Tok.isRGrowth]
+    | free c n => cases c <;> simp_all [Tok.isGrowth, Tok.isRGrowth]
+    | _ => simp [Tok.isRGrowth] at hg
+  have := (h.growthTok t ht.1 hgg).2 hg
+  omega
 
 /-- **Scope of the finding.**  The ready queue allocates only on a thread that has never used it (its `std::deque` is
 constructed on first use) or from the 64th enqueue on (one 512-byte node per 64 enqueues, the map when it runs out):
@@ -99,15 +124,18 @@ theorem c20_ready_queue_scope (fuel : Nat) (prog : List Op) (h64 : (run fuel fal
   · rw [h.freshC] at h1; cases h1
   · rw [slots_eq] at h1; omega
 
-/-- **C20, full statement inside that scope.**  For every core program run on a thread whose ready queue exists and
-that enqueues fewer than 64 resumptions: every allocation or release in the log is the frame of a coroutine /
-generator the user created, or the handle array of a suspend point that held at least three handles when it grew. -/
-theorem c20_core_no_alloc (fuel : Nat) (prog : List Op) (h64 : (run fuel false prog).pushes < 64) :
+/-- **C20, full statement inside that scope.**  For every core program run on a thread whose ready queue exists, that
+enqueues fewer than 64 resumptions and in which no single resolution releases more than `inline_count` coroutines: every
+allocation or release in the log is the frame of a coroutine / generator the user created, or the handle array of a suspend
+point that held at least three handles when it grew. -/
+theorem c20_core_no_alloc (fuel : Nat) (prog : List Op) (h64 : (run fuel false prog).pushes < 64)
+    (hr : (run fuel false prog).rpeak ≤ inlineCount) :
     ∀ t ∈ allocLog (run fuel false prog), Permitted t := by
   intro t ht
-  rcases c20_core_no_alloc_partial fuel false prog t ht with h | h
+  rcases c20_core_no_alloc_partial fuel false prog t ht with h | h | h
   · exact h
   · exact absurd h (c20_ready_queue_scope fuel prog h64 t ht)
+  · exact absurd h (c20_resolve_growth_scope fuel false prog hr t ht)
 
 /-- **"The only allocations are the coroutine frames the user creates (and those too disappear under a non-heap
 storage policy)."**  The log has at most one frame allocation per operation that creates a coroutine / generator with a
@@ -135,7 +163,7 @@ theorem c20_growth_only_beyond_inline (fuel : Nat) (fresh : Bool) (prog : List O
   intro t ht hg
   have h := inv_run fuel fresh prog
   rw [mem_allocLog] at ht
-  have := h.growthTok t ht.1 hg
+  have := (h.growthTok t ht.1 hg).1
   omega
 
 /-- **No event at all.**  A program that creates no heap-frame coroutine / generator (only non-heap frames, or no coroutine
@@ -149,7 +177,8 @@ theorem c20_no_event_at_all (fuel : Nat) (prog : List Op) (hn : ¬ hasHeapCreate
   intro t ht
   have h1 := (c20_frames_are_user_creations fuel false prog).2 hn t ht
   have h2 := c20_growth_only_beyond_inline fuel false prog hp t ht
-  have h3 := c20_core_no_alloc fuel prog h64 t ht
+  have hrp : (run fuel false prog).rpeak ≤ inlineCount := Nat.le_trans (inv_run fuel false prog).rpeakLe hp
+  have h3 := c20_core_no_alloc fuel prog h64 hrp t ht
   cases t with
   | act j l => exact h3
   | cb i => exact h3
@@ -194,16 +223,37 @@ example : ¬ hasHeapCreate progSilent ∧ (run 100 false progSilent).peak ≤ in
     rcases hop with rfl | rfl | rfl | rfl | rfl | rfl | rfl | rfl | rfl | rfl | rfl | rfl | rfl <;> simp [Op.isHeapCreate] at hc
   all_goals decide
 
-/-- non-vacuity of the other clauses: four heap-frame waiters on one future — four frames, and the resolver's suspend
-point grows when the fourth handle arrives (holding 3, array of 6), released after the flush -/
+/-- four heap-frame coroutines awaiting one future, resolved by ordinary code -/
 def progGrow : List Op :=
   [.fut 0, .co 0 true none [.await 0], .co 1 true none [.await 0], .co 2 true none [.await 0], .co 3 true none [.await 0],
    .res 0 .v, .fin]
 
 set_option maxRecDepth 100000 in
-example : allocLog (run 100 false progGrow) =
+/-- **The second finding.**  Four coroutines wait for one future; resolving it makes `resume_chain_lk` collect four handles in
+one suspend point, which allocates a handle array (holding 3, array of 6) — although the statement promises that "resolving a
+future with any number of waiters" allocates nothing.  (Also the non-vacuity witness of the frame clauses: four frames.) -/
+theorem c20_resolve_growth_witness : allocLog (run 100 false progGrow) =
     [Tok.alloc .frame 1 0, Tok.alloc .frame 1 0, Tok.alloc .frame 1 0, Tok.alloc .frame 1 0,
-     Tok.alloc .growth 6 3, Tok.free .frame 1, Tok.free .frame 1, Tok.free .frame 1, Tok.free .frame 1,
-     Tok.free .growth 6] ∧ nHeapCreate progGrow = 4 ∧ (run 100 false progGrow).peak = 4 := by decide
+     Tok.alloc .rgrowth 6 3, Tok.free .frame 1, Tok.free .frame 1, Tok.free .frame 1, Tok.free .frame 1,
+     Tok.free .rgrowth 6] ∧ nHeapCreate progGrow = 4 ∧ (run 100 false progGrow).peak = 4 ∧ (run 100 false progGrow).rpeak = 4 := by decide
+
+/-- exactly `inline_count` coroutines awaiting one future -/
+def progThree : List Op :=
+  [.fut 0, .co 0 false none [.await 0], .co 1 false none [.await 0], .co 2 false none [.await 0], .res 0 .v, .fin]
+
+/-- four parked coroutines whose handles user code puts into one suspend point, which is then flushed -/
+def progUserGrow : List Op :=
+  [.co 0 false none [.park], .co 1 false none [.park], .co 2 false none [.park], .co 3 false none [.park],
+   .sa 0 0, .sa 0 1, .sa 0 2, .sa 0 3, .sf 0, .fin]
+
+set_option maxRecDepth 100000 in
+/-- non-vacuity of the permitted `growth` clause: a suspend point *the user* fills with more than three ready coroutines grows
+(holding 3, array of 6) — that is what the statement allows; no resolution is involved (`rpeak = 0`) -/
+example : allocLog (run 100 false progUserGrow) = [Tok.alloc .growth 6 3, Tok.free .growth 6] ∧
+    (run 100 false progUserGrow).peak = 4 ∧ (run 100 false progUserGrow).rpeak = 0 := by decide
+
+set_option maxRecDepth 100000 in
+/-- exactly `inline_count` coroutine waiters: the boundary case of `c20_resolve_growth_scope` has an empty log -/
+example : allocLog (run 100 false progThree) = [] ∧ (run 100 false progThree).rpeak = 3 := by decide
 
 end Cocls.C20
